@@ -12,3 +12,5 @@ import MW.Props.C05
 #print axioms MW.Props.C05.payouts_le_received
 #print axioms MW.Props.C05.batch_total_is_sum
 #print axioms MW.Props.C05.single_payout_bounded
+#print axioms MW.Props.C05.payouts_every_history
+#print axioms MW.Props.C05.no_request_no_payout
